@@ -101,7 +101,22 @@ func TestC07RoundTrip(t *testing.T) {
 			orig := append([]byte(nil), p.Data...)
 			scratch, bcls := drawScratch(t, len(p.Data))
 			w := &countWriter{}
-			n, err := enc.Compress(p.Data, scratch, w)
+			var (
+				n   int
+				err error
+			)
+			func() {
+				// a Go panic inside the codec (not a crash of the C library) gets a signature of its own
+				defer func() {
+					if r := recover(); r != nil {
+						if tn := fmt.Sprintf("%T", r); tn == "rapid.stopTest" || tn == "rapid.invalidData" {
+							panic(r)
+						}
+						t.Fatalf("%s", evid.Sig("C07:compress-panic", "variant=%s enc=%s level=%d data{%s} buf(len %d cap %d): Compress panicked: %v", variant, et, level, p.Describe(), len(scratch), cap(scratch), r))
+					}
+				}()
+				n, err = enc.Compress(p.Data, scratch, w)
+			}()
 			desc := fmt.Sprintf("variant=%s enc=%s level=%d step=%d data{%s} buf=%s(len %d cap %d)", variant, et, level, s, p.Describe(), bcls, len(scratch), cap(scratch))
 			if err != nil {
 				t.Fatalf("%s", evid.Sig("C07:compress-error", "%s: Compress: %v", desc, err))
